@@ -95,14 +95,12 @@ Proof. decide equality; [apply ostate_eq_dec|apply dstate_eq_dec]. Defined.
 Definition vkey (s : vstate) : N :=
   hkey (mkH (mkSys (v_d s) (o_c (v_o s))) (o_sel (v_o s))) + 89 * o_bg (v_o s) + (if o_dirty (v_o s) then 97 else 0) + 101 * o_n (v_o s).
 
+(** The section variables are VALUES computed once per panel (under [vm_compute] an argument is
+    evaluated before the call): the driver model, the specification with the tracked-command list
+    filled in, the init signature, the reference waveform tables of both modes and the alphabet. *)
 Section Panel.
-Variables (ft : feat) (P0 : pspec).
+Variables (D : driver) (PP : pspec) (isig : list N) (lr0 lr1 : list (N * list N)) (alpha : list (list op)).
 
-Definition D : driver := drv_of ft P0.
-Definition isig : list N := init_sig ft P0.
-Definition PP : pspec := Hist.P ft P0.
-Definition lr0 := lut_ref ft PP 0.
-Definition lr1 := lut_ref ft PP 1.
 Definition lref (r : N) : list (N * list N) := if r =? 0 then lr0 else if r =? 1 then lr1 else [].
 
 (** construction *)
@@ -124,6 +122,11 @@ Definition vop (k : N) (s : vstate) (o : op) : option vstate * list fail :=
       | (Some _, d1, t) =>
           let '(o1, fs) := observe PP sym lref isig k (v_o s) o (calls t) in
           (Some (mkV d1 o1), map (fun '(p, c) => mkfail p (op_code o) c) fs)
+      | (None, _, [IPanic]) =>
+          (* the call is REFUSED: it panics before touching the bus or the driver's fields
+             (unimplemented!() bodies, documented argument / mode assertions): the step is not
+             enabled in this state and nothing is charged *)
+          (None, [])
       | (None, _, _) => (None, [mkfail (prop_of_op o) (op_code o) ClPanic])
       end
   end.
@@ -141,7 +144,6 @@ Fixpoint vmacro (k : N) (s : vstate) (m : list op) : option vstate * list fail :
 (** history steps run with call index 0, probes with call index 1 (so that bytes of a buffer
     borrowed by an earlier call are distinguishable from the probe's own, C12) *)
 Definition vstep (s : vstate) (m : list op) : option vstate := fst (vmacro 0 s m).
-Definition alpha : list (list op) := ps_alpha P0.
 
 Definition vreach (fuel : nat) : list vstate :=
   match fst v_new with
@@ -157,6 +159,8 @@ Definition all_fails (R : list vstate) : list fail := snd v_new ++ flat_map prob
 Definition failb (a b : fail) : bool := if fail_eq_dec a b then true else false.
 Definition inb (f : fail) (l : list fail) : bool := existsb (failb f) l.
 Definition inclb (a b : list fail) : bool := forallb (fun f => inb f b) a.
+
+Definition dedup (l : list fail) : list fail := fold_left (fun acc f => if inb f acc then acc else f :: acc) l [].
 
 (** the verdict: [R] contains the initial state and is closed under the alphabet, every failure
     observed from any state of [R] is listed in [known], and every listed failure is observed
@@ -214,3 +218,21 @@ Proof.
 Qed.
 
 End Panel.
+
+(** ** Instantiation for a panel specification and a feature set *)
+Section Inst.
+Variables (ft : feat) (P0 : pspec).
+Definition iD : driver := drv_of ft P0.
+Definition iPP : pspec := Hist.P ft P0.
+Definition iisig : list N := init_sig ft P0.
+Definition ilr (r : N) := lut_ref ft iPP r.
+Definition ialpha : list (list op) := ps_alpha P0.
+Definition p_new := v_new iD iPP iisig.
+Definition p_reach (fuel : nat) := vreach iD iPP iisig (ilr 0) (ilr 1) ialpha fuel.
+Definition p_closed (R : list vstate) := vclosed iD iPP iisig (ilr 0) (ilr 1) ialpha R.
+Definition p_fails (R : list vstate) := all_fails iD iPP iisig (ilr 0) (ilr 1) ialpha R.
+Definition p_distinct (R : list vstate) := dedup (all_fails iD iPP iisig (ilr 0) (ilr 1) ialpha R).
+Definition p_ok (R : list vstate) (known : list fail) := panel_ok iD iPP iisig (ilr 0) (ilr 1) ialpha R known.
+Definition p_macro (k : N) (s : vstate) (m : list op) := vmacro iD iPP iisig (ilr 0) (ilr 1) k s m.
+Definition p_run (s : vstate) (h : list (list op)) := vrun iD iPP iisig (ilr 0) (ilr 1) s h.
+End Inst.
